@@ -33,6 +33,8 @@ def oracle(probes, ops, obs, res):
     for idx, (op, o) in enumerate(zip(ops, obs)):
         k = op[0]
         if o["err"]:
+            if k == "LR" and o["err"] == "KeyError":
+                break  # removing a listener that is not registered raises (C06's subject, D18); no cache operation involved
             found.append((idx, "C05:exception:%s" % o["err"], "op %r raised %s" % (op[:2], o.get("errmsg"))))
             break
         t = CC.op_time(op)
